@@ -162,8 +162,11 @@ func runC12(c *fw.Ctx) {
 			}
 			permutations(n, func(order []int) bool {
 				for _, host := range hosts {
-					if c.Quick() && n >= 3 && (strings.Contains(host.name, "@inter1") || strings.Contains(host.name, "@inter2") || strings.Contains(host.name, "#1") || strings.Contains(host.name, "#2") || strings.Contains(host.name, "@method1") || strings.Contains(host.name, "@method2")) {
-						continue // quick tier: the position matrix of the hosts against all graphs over 2 types, the base positions against 3
+					if c.Expired() {
+						return false
+					}
+					if (c.Quick() && n >= 3 || n >= 4) && (strings.Contains(host.name, "@inter1") || strings.Contains(host.name, "@inter2") || strings.Contains(host.name, "#1") || strings.Contains(host.name, "#2") || strings.Contains(host.name, "@method1") || strings.Contains(host.name, "@method2")) {
+						continue // the position matrix of the hosts against all graphs over 2 (thorough 3) types, the base positions against 3 (4)
 					}
 					if !c.Next() {
 						continue
